@@ -236,6 +236,22 @@ class PassEquiv(object):
             am = self.A_mem[an]
             if am in stA1['mems'] and bm in stB1['mems']:
                 ind.append(stA1['mems'][am] != stB1['mems'][bm])
+        # reset values correspond exactly (an explicit 0 is not the same as "unspecified": the
+        # latter takes the simulator's default_value)
+        resetprob = []
+        for an, pieces in corr['reg'].items():
+            if an in removed:
+                continue
+            arv = self.A_reset.get(an)
+            for (bn, lo, w) in pieces:
+                brv = Breg[bn].reset_value
+                exp = None if arv is None else (arv >> lo) & ((1 << w) - 1)
+                if brv != exp:
+                    resetprob.append('%s.reset_value=%r but source %s.reset_value=%r (bits %d..%d => %r)'
+                                     % (bn, brv, an, arv, lo, lo + w - 1, exp))
+        if resetprob:
+            res.update(status='resetmismatch', problems=resetprob[:6])
+            return res
         # started from reset: each side takes its own reset values (None -> default 0)
         def _rv(r):
             return z3.BitVecVal((r.reset_value or 0) % (2 ** r.bitwidth), r.bitwidth)
